@@ -59,7 +59,7 @@ def run(ctx):
     n = 4000 if ctx.quick else 400000
     s = ctx.seed
     # mode bits: 1 = row-high only + twice, 2 = no turned, 4 = magnitude, 8 = sparse
-    plan = [(1, n // 2, s + 50), (1 | 4, n // 4, s + 51), (1 | 8, n // 8, s + 52), (1 | 2, n // 8, s + 53)]
+    plan = [(1, n // 2, s + 50), (1 | 4, n // 4, s + 51), (1 | 8, n // 8, s + 52), (1 | 2, n // 8, s + 53), (1 | 32, n // 4, s + 54), (1 | 32 | 4, n // 8, s + 55)]
     if not ctx.quick:
         plan += [(1, n // 2, s + 1050), (1 | 4, n // 2, s + 2050)]
     run = lc.LegalRun(ctx, plan).execute()
